@@ -49,6 +49,8 @@ type plan struct {
 	Log    []metacmd.Cmd
 	Snaps  []snapAt
 	Bodies []body
+	// cluster mode
+	Cluster []cop
 }
 
 func genSetup(t *rapid.T) []metacmd.Cmd {
@@ -68,6 +70,10 @@ func genSetup(t *rapid.T) []metacmd.Cmd {
 
 func genPlan(t *rapid.T) interface{} {
 	p := &plan{AutoRP: rapid.Bool().Draw(t, "autorp")}
+	if rapid.IntRange(0, 5).Draw(t, "cluster") == 0 {
+		genCluster(t, p)
+		return p
+	}
 	if rapid.IntRange(0, 2).Draw(t, "mode") == 0 {
 		p.Mode = "accept"
 		p.Log = genSetup(t)
@@ -273,7 +279,9 @@ func execSnapshot(run *core.Run, p *plan) {
 
 func exec(run *core.Run, pl interface{}) {
 	p := pl.(*plan)
-	if p.Mode == "accept" {
+	if p.Mode == "cluster" {
+		execCluster(run, p)
+	} else if p.Mode == "accept" {
 		execAccept(run, p)
 	} else {
 		execSnapshot(run, p)
@@ -314,6 +322,13 @@ func describe(pl interface{}) interface{} {
 		log = append(log, c.Desc)
 	}
 	d["log"] = log
+	if p.Mode == "cluster" {
+		var ops []string
+		for _, o := range p.Cluster {
+			ops = append(ops, fmt.Sprintf("%s(node%d,n=%d,%dms)", o.Kind, o.Node, o.N, o.Ms))
+		}
+		d["cluster_ops"] = ops
+	}
 	if p.Mode == "accept" {
 		var bs []string
 		for _, b := range p.Bodies {
@@ -334,12 +349,12 @@ func TestC07(t *testing.T) {
 		Bubble:         true,
 		Describe:       describe,
 		Tier:           "A",
-		RequiredProbes: []string{"snapshot-verified", "snapshot-persisted-after-later-commands", "body-accepted-by-endpoint", "body-rejected-by-endpoint"},
-		Real:           []string{"meta storeFSM.Apply / Snapshot / storeFSMSnapshot.Persist / Restore", "meta.Data.Clone, marshal/unmarshal", "handler validateCommand"},
-		Stub:           []string{"raft consensus, log store, transport and the HTTP endpoints (the state machine is driven directly; the snapshot/apply interleaving raft produces is reproduced by the plan)", "legacy CreateNode/RemovePeer bodies are validated but not applied (they consult live raft state)"},
+		RequiredProbes: []string{"snapshot-verified", "snapshot-persisted-after-later-commands", "body-accepted-by-endpoint", "body-rejected-by-endpoint", "cluster-converged", "change-acknowledged-with-a-node-unreachable", "meta-node-restarted", "fault-aimed-at-leader"},
+		Real:           []string{"meta storeFSM.Apply / Snapshot / storeFSMSnapshot.Persist / Restore", "meta.Data.Clone, marshal/unmarshal", "handler validateCommand", "cluster mode: meta.Service (HTTP handler: execute with leader redirect, join, status, snapshot long poll), meta store, hashicorp/raft with bolt log/stable store and file snapshot store, the raft network layer behind tcp.Mux, meta.Client (retryUntilExec, polling) - three nodes on the simulated network and clock"},
+		Stub:           []string{"snapshot/accept modes drive the state machine directly (no raft); legacy CreateNode/RemovePeer bodies are validated but not applied (they consult live raft state)", "cluster mode: no data nodes; a stopped node is closed cleanly (its files are what it left), not cut at a crash point"},
 		Assumptions: []string{
-			"raft itself (hashicorp/raft) is trusted to deliver the same committed log to every node and to call Snapshot/Persist/Restore as documented; leader failover, partitions and restarts of real meta nodes are NOT exercised by this check",
+			"cluster mode faults: stop/restart of any node or the current leader, nodes that refuse incoming connections (asymmetric isolation; the dial seam does not know who dials, so symmetric partitions are not modelled); bolt's own crash consistency is not explored; raft's snapshot threshold (8192 entries) is not reached, so install-snapshot between live nodes is not exercised there (the snapshot mode covers the state machine's side of it)",
 		},
-		Rule: "snapshot mode: a log of setup + 1-40 commands (biased to owner-list and privilege edits) with 1-4 snapshots taken at seeded positions and persisted 0-12 commands later; restored image must equal the state at the snapshot position in full (incl. deleted groups) and a node restarted from it must converge after replaying the suffix; accept mode: 1-12 request bodies of every command type with absent / foreign / empty / garbage / truncated / over-long extensions - whatever the endpoint's validation accepts must apply without panic; non-trivial = a snapshot persisted after later commands, or an accepted body applied",
+		Rule: "snapshot mode: a log of setup + 1-40 commands (biased to owner-list and privilege edits) with 1-4 snapshots taken at seeded positions and persisted 0-12 commands later; restored image must equal the state at the snapshot position in full (incl. deleted groups) and a node restarted from it must converge after replaying the suffix; accept mode: 1-12 request bodies of every command type with absent / foreign / empty / garbage / truncated / over-long extensions - whatever the endpoint's validation accepts must apply without panic; cluster mode (one run in six): three real meta nodes joined into a raft cluster, 3-18 operations (create/drop database, create retention policy, create user through the real client; stop, restart, isolate, heal a node or the leader; sleeps up to 20 s), then heal, 45 simulated seconds to settle: every acknowledged change present on every node, all nodes equal, a new command commits; non-trivial = a snapshot persisted after later commands, an accepted body applied, or a cluster run with a fault",
 	})
 }
